@@ -236,6 +236,18 @@ def run_case(case, rec):
                 jax.clear_caches()
             rec.count("assignments_checked")
             check(bits, vals, jac, "string-form/%s" % kind, "-".join(combo))
+        # from_str with only SOME terms named: every unnamed term gets the documented default (network parameters only)
+        for ss in [tuple(t for t in terms if t != tt) for tt in terms] + [(tt,) for tt in terms] + [()]:
+            kw = {dk_name[t]: "both" for t in ss}
+            dk = guard.call(DK.from_str, params, **kw)
+            bits = {(t, g): int(g == "nn" or t in ss) for t in terms for g in GROUPS}
+            l2 = guard.call(type(loss), **_loss_kwargs(pr, dk))
+            vals, jac = guard.call(jax.jit(observe), l2, params, batch)
+            if rec.counters.get("partial_string_forms_checked", 0) % 10 == 9:
+                jax.clear_caches()
+            rec.count("partial_string_forms_checked")
+            rec.count("assignments_checked")
+            check(bits, vals, jac, "string-form/%s/unnamed-terms-default" % kind, "named=%s" % "+".join(ss))
         # defaults: DerivativeKeys(params=...) and a loss built without derivative_keys
         bits = {(t, g): int(g == "nn") for t in terms for g in GROUPS}
         for label, dk in (("keys-default", guard.call(DK, params=params)), ("loss-default", None)):
